@@ -72,6 +72,53 @@ def main():
     for k, o in enumerate(coq_eval("c20live", HDR, ["Definition cases := %s.\nEval vm_compute in bad_idx live_ok cases.\n" % cl(ch) for ch in chunked(rows, 40)])):
         bad += [k * 40 + x for x in parse_nlist(parse_evals(o)[0])]
     nclosed = sum(1 for c in cases for s in c["steps"] if s[0] == "book" and s[2] == "CLOSED")
+    # simulation with listener filters: a market that has been in play longer than `max_inplay_seconds` (its later OPEN updates are filtered out) is
+    # still closed once: the closing update reaches the framework, the closed-market callback fires, the market is marked closed
+    lfs = []
+    for _ in range(24 if thorough else 8):
+        t0 = 1_700_000_000_000
+        lim = rng.choice([1, 5, 30])
+        def rrs(stt=None):
+            return [{"id": 1, "status": stt[0] if stt else "ACTIVE", "adj": 1000, "atb": [] if stt else [[20000, 500]], "atl": [] if stt else [[20200, 500]], "trd": []},
+                    {"id": 2, "status": stt[1] if stt else "ACTIVE", "adj": 2000, "atb": [] if stt else [[30000, 500]], "atl": [] if stt else [[31000, 500]], "trd": []}]
+        seq = [("OPEN", False, 0), ("OPEN", False, 1000), ("OPEN", True, 2000), ("OPEN", True, 2000 + 500 * lim), ("OPEN", True, 2000 + 3000 * lim),
+               (rng.choice(["SUSPENDED", "OPEN"]), True, 2000 + 5000 * lim), ("CLOSED", True, 2000 + 9000 * lim)]
+        ups = [{"pt": t0 + dt, "status": stt, "version": 1 + k, "inplay": ip, "bsp_rec": False, "delay": 0, "runners": rrs(("WINNER", "LOSER") if stt == "CLOSED" else None)} for k, (stt, ip, dt) in enumerate(seq)]
+        lfs.append({"config": {"place_latency": 0.12, "cancel_latency": 0.17, "update_latency": 0.15, "replace_latency": 0.28, "isolation": True},
+                    "clients": [{"bpe": True, "full_match": False, "limit": None, "min_val": False}],
+                    "strategies": [{"name": "s0", "client": 0, "markets": [0], "listener_kwargs": {"max_inplay_seconds": lim}}],
+                    "markets": [{"id": "1.100000001", "event": "20000001", "group": False, "type": "WIN", "bsp": False, "persist": True, "winners": 1, "updates": ups, "img": False}],
+                    "script": [{"s": 0, "m": 0, "u": 0, "acts": [["place", 1, 1, "BACK", {"t": "L", "p": 20000, "s": 200, "pt": "LAPSE", "tif": None, "mf": None}, {"mv": None}]]}]})
+    lfo = run_impl("simlib", {"scenarios": [simgen.to_impl(x) for x in lfs], "observe": "all"})["out"]
+    lfbad = []
+    for i, io in enumerate(lfo):
+        closed_calls = [c for c in io["calls"] if c[1] == "closed"]
+        stt = io["markets"].get("1.100000001")
+        if io.get("error") or len(closed_calls) != 1 or stt is None or not stt["closed"]:
+            lfbad.append((i, "closed-market callbacks %d (expected 1), market state %s, error %s" % (len(closed_calls), stt, io.get("error"))))
+    ck.family("closure_of_a_market_beyond_max_inplay_seconds", len(lfs), len(lfs), [], [i for i, _ in lfbad])
+    for i, why in lfbad[:1]:
+        ck.fail("C20-sim", "simulation with listener_kwargs max_inplay_seconds: the market's closing update must still be processed once - " + why, {"scenario": lfs[i], "how": "harness/impl/simlib.py"})
+    # the two "cleared" flags of a market are independent, also after a re-open: noting that a client's cleared ORDERS were fetched must not make
+    # the cleared-market SUMMARY look fetched (first closure, second closure of a re-opened market, repeated CLOSED books)
+    fcases = []
+    for tail in (["CLOSED"], ["CLOSED", "OPEN", "CLOSED"], ["CLOSED", "CLOSED"], ["CLOSED", "OPEN", "OPEN", "CLOSED"], ["CLOSED", "SUSPENDED", "CLOSED"]):
+        steps = [["book", "1.101", "OPEN"]]
+        for k, stt in enumerate(tail):
+            if stt == "CLOSED" and k > 0 and tail[k - 1] == "CLOSED":
+                pass
+            steps.append(["book", "1.101", stt])
+            if stt == "CLOSED" and (k + 1 == len(tail) or tail[k + 1] != "CLOSED"):
+                if k + 1 < len(tail):
+                    steps.append(["cleared", "1.101"])
+        steps.append(["cleared_orders", "1.101"])
+        fcases.append({"strategies": [{"markets": ["1.101"]}], "steps": steps})
+    fres = run_impl("livelib", {"job": "closure", "cases": fcases})["out"]
+    fbad2 = [i for i, r in enumerate(fres) if r[-1]["markets"]["1.101"] is not None and (r[-1]["markets"]["1.101"]["flags_orders"] != ["u"] or r[-1]["markets"]["1.101"]["flags_market"] != [])]
+    ck.family("cleared_flags_are_independent", len(fcases), len(fcases), [], fbad2)
+    for i in fbad2[:1]:
+        ck.fail("C20-cleared-flags", "after the last closure the worker noted the client's cleared ORDERS as fetched; the market's flags are orders_cleared=%s market_cleared=%s (the cleared-market summary would never be requested)" % (
+            fres[i][-1]["markets"]["1.101"]["flags_orders"], fres[i][-1]["markets"]["1.101"]["flags_market"]), {"case": fcases[i], "how": "harness/impl/livelib.py job closure"})
     ck.family("live_framework_closures", len(cases), len(set(rows)), bad, bad, dist={"steps": sum(len(c["steps"]) for c in cases), "closing_updates": nclosed},
               samples=[{"family": "live", "case": cases[0], "impl_first_steps": res[0][:2]}])
     for i in bad[:3]:
